@@ -532,8 +532,8 @@ func checkLong(c LongCase, o *vf.Obs) error {
 			if err != nil {
 				return fmt.Errorf("explain.ParseCNF returns an error on a text with a %d-byte comment line: %v", longest, err)
 			}
-			if !reflect.DeepEqual(pb.Clauses, cls) {
-				return fmt.Errorf("explain.ParseCNF read %v from a text with a %d-byte comment line, the clauses are %v", pb.Clauses, longest, cls)
+			if want, got := oracle.Models(3, oracle.CNFPred(cls)), oracle.Models(3, oracle.CNFPred(pb.Clauses)); pb.NbVars != 3 || !reflect.DeepEqual(got, want) {
+				return fmt.Errorf("explain.ParseCNF read %v (%d variables) from a text with a %d-byte comment line, the clauses are %v", pb.Clauses, pb.NbVars, longest, cls)
 			}
 			return nil
 		}
@@ -593,13 +593,14 @@ func checkLong(c LongCase, o *vf.Obs) error {
 			if err != nil {
 				return fmt.Errorf("explain.ParseCNF returns an error on a well-formed text of %d bytes with clauses written over several lines: %v", sb.Len(), err)
 			}
-			if len(pb.Clauses) != len(cls) {
-				return fmt.Errorf("explain.ParseCNF read %d clauses from a %d-byte text that holds %d", len(pb.Clauses), sb.Len(), len(cls))
-			}
-			for i := range cls {
-				if !reflect.DeepEqual(pb.Clauses[i], cls[i]) {
-					return fmt.Errorf("explain.ParseCNF: clause %d of a %d-byte text is %v, read as %v", i, sb.Len(), cls[i], pb.Clauses[i])
+			want := oracle.Models(10, oracle.CNFPred(cls))
+			if got := oracle.Models(10, oracle.CNFPred(pb.Clauses)); pb.NbVars != 10 || !reflect.DeepEqual(got, want) {
+				for i := range cls { // say which clause differs, when the list was kept in order
+					if i < len(pb.Clauses) && !reflect.DeepEqual(pb.Clauses[i], cls[i]) {
+						return fmt.Errorf("explain.ParseCNF: %d variables and %d models read from a %d-byte text that has 10 variables and %d models; clause %d is %v, read as %v", pb.NbVars, len(got), sb.Len(), len(want), i, cls[i], pb.Clauses[i])
+					}
 				}
+				return fmt.Errorf("explain.ParseCNF: %d variables and %d models read from a %d-byte text that has 10 variables and %d models (%d clauses read, %d written)", pb.NbVars, len(got), sb.Len(), len(want), len(pb.Clauses), len(cls))
 			}
 			return nil
 		}
@@ -630,8 +631,31 @@ func checkLong(c LongCase, o *vf.Obs) error {
 		if err != nil {
 			return fmt.Errorf("explain.ParseCNF returns an error on a well-formed text whose longest line has %d bytes: %v", longest, err)
 		}
-		if len(pb.Clauses) != 2 || !reflect.DeepEqual(pb.Clauses[0], want) {
-			return fmt.Errorf("explain.ParseCNF: the %d-literal clause (a %d-byte line) was not read back as written (%d clauses read)", len(want), longest, len(pb.Clauses))
+		// the long clause is (x1 or ... or xN) whatever the order and the repetitions; with the unit clause (not x1)
+		// the models are those of (x2 or ... or xN) and not x1: compared as literal sets, a truth table being out of reach
+		asSet := func(cl []int) map[int]bool {
+			m := map[int]bool{}
+			for _, l := range cl {
+				m[l] = true
+			}
+			return m
+		}
+		okLong, okUnit := false, false
+		for _, cl := range pb.Clauses {
+			set := asSet(cl)
+			if len(set) == c.N && !okLong {
+				okLong = true
+				for v := 1; v <= c.N; v++ {
+					okLong = okLong && set[v]
+				}
+			} else if len(set) == 1 && set[-1] {
+				okUnit = true
+			} else {
+				return fmt.Errorf("explain.ParseCNF: a clause with the %d distinct literals %v... was read from a text that holds a clause over x1..x%d (a %d-byte line) and the unit clause -1", len(set), cl[:min(len(cl), 6)], c.N, longest)
+			}
+		}
+		if !okLong || !okUnit {
+			return fmt.Errorf("explain.ParseCNF: the %d-literal clause (a %d-byte line) or the unit clause was lost (%d clauses read)", len(want), longest, len(pb.Clauses))
 		}
 	}
 	return nil
